@@ -14,6 +14,9 @@ pub struct Stage {
     /// per-case watchdog
     pub timeout_s: u64,
     pub what: &'static str,
+    /// run the stage a second time with the workers of the `crc32c`-feature build and require
+    /// identical per-case observations
+    pub hw_compare: bool,
 }
 
 /// Result of an in-process engine stage (E2 explicit-state BFS, E4 syndrome table).
@@ -43,7 +46,7 @@ pub struct Check {
 }
 
 fn st(space: &'static str, f: CaseFn, bound: (u32, u32), tiers: u8, what: &'static str) -> Stage {
-    Stage { space, f, bound, tiers, timeout_s: 20, what }
+    Stage { space, f, bound, tiers, timeout_s: 20, what, hw_compare: false }
 }
 
 pub fn checks() -> Vec<Check> {
@@ -149,6 +152,22 @@ pub fn checks() -> Vec<Check> {
         budget_s: (45, 900),
     },
     Check {
+        id: "C07",
+        level: "model_checking",
+        stages: vec![
+            st("c07.f1", c07::f1, (0, 0), 3, "4 files (2-5 pages) x every single-bit flip of every byte of every page x [validate_crc, raw_xml, open, every read op forwards and backwards on one reader]"),
+            st("c07.f2", c07::f2, (0, 0), 3, "4 files x every page x {payload byte, checksum byte, last payload byte} damaged x all read-op histories of depth 3 (thorough 4) on one reader"),
+            Stage { hw_compare: true, ..st("c07.f6", c07::f6, (0, 0), 3, "backend comparison: all writer programs of depth <=2 (file bytes) and damaged-file verdict vectors, executed with the built-in CRC and with the crc32c feature; per-case observations must be identical") },
+        ],
+        extra: Some(c07::extra),
+        rule: "F1/F2: full products executed on the real reader, every outcome must be Err or equal to the pristine outcome, validate_crc must fail for every flip; F3: all 1-bit and 2-bit flips of a page through the real PagedReader; F4: 3-bit and burst clauses decided on a syndrome table measured with the crate's CRC whose affinity is verified on every executed pair; F6: identical observations in both builds; distinct = distinct verdict vectors",
+        assumptions: &[
+            "files are small enough that the operation list reads every page",
+            "3-bit and <=32-bit-burst clauses rest on the affinity of CRC (verified on all executed 2-bit flips of one page), not on executing all 9.2e10 triples",
+        ],
+        budget_s: (55, 1200),
+    },
+    Check {
         id: "C10",
         level: "model_checking",
         stages: vec![
@@ -210,6 +229,32 @@ pub fn checks() -> Vec<Check> {
             "ambiguous limits (variant differing between min and max, ScaledInteger limits) accept either the limit range, the type range or the scaled limit range, the same for all values of a cloud",
             "limits that are not a range (lo > hi, NaN) only require the invariants; an Err from the reader is accepted there",
         ],
+        budget_s: (50, 900),
+    },
+    Check {
+        id: "C15",
+        level: "fault_enumeration",
+        stages: vec![
+            st("c15.crash", c15::crash, (0, 0), 3, "12 hand-listed shapes + all programs of depth <=2 (thorough <=3) over the 30-op alphabet x every prefix of the device write log x every byte cut of the cut write"),
+            st("c15.dropped", c15::dropped, (0, 0), 3, "the same programs with the writers dropped without top-level finalize after every API position (optionally abandoning the last point cloud writer)"),
+        ],
+        extra: None,
+        rule: "crash image(k,c) = device writes 0..k applied completely + first c bytes of write k; every (k,c) of every program is built and offered to the real reader; accepted images must stem from inside finalize, list the completed file's content and answer every read op with Err or the completed file's result; evaluations = crash images; distinct = distinct image bytes per case; non-trivial = case with at least one image judged",
+        assumptions: &["writes reach the device in issue order; a torn write leaves a prefix of the new bytes followed by the old bytes (as the statement says)"],
+        budget_s: (50, 900),
+    },
+    Check {
+        id: "C16",
+        level: "fault_enumeration",
+        stages: vec![
+            st("c16.writer_faults", c16::writer_faults, (0, 0), 3, "12 hand-listed shapes + all programs of depth <=2 (thorough <=3): one injected device error at every device-operation index (read/write/seek/flush)"),
+            st("c16.writer_chunks", c16::writer_chunks, (1, 2), 3, "the same programs: every chunking schedule with <=1 (thorough <=2) short transfers {1 byte, half, len-1} of device and blob-source transfers + 3 uniform schedules"),
+            st("c16.reader_faults", c16::reader_faults, (0, 0), 3, "4 files x reader program (validate_crc, raw_xml, open, every read op): one injected device error at every device-operation index"),
+            st("c16.reader_chunks", c16::reader_chunks, (1, 2), 3, "4 files x reader program under every schedule with <=1 (thorough <=2) short reads + 3 uniform schedules"),
+        ],
+        extra: None,
+        rule: "faults: the fault-free run numbers the device operations, then one run per index with exactly that operation failing; the call in progress must return Err, finalize Ok implies the fault-free bytes; chunking: deviation-bounded DFS over the short-transfer choice at every transfer, bytes / results must equal the full-transfer run; distinct = distinct (bytes | failing step); non-trivial = fault fired / at least one short transfer",
+        assumptions: &["a short transfer never returns 0 bytes for a non-empty request (that would be EOF / WriteZero, i.e. a fault)", "faults that fire while the writer is dropped are exempt from the 'call returns Err' clause"],
         budget_s: (50, 900),
     },
     Check {
